@@ -13,7 +13,7 @@ func init() {
 		Title: "Filters run container, service, route in order, each once, per request",
 		Decided: "C06.a the routed chain's filter slice is a fresh slice filled, in this order, with the container's, the selected service's and the selected route's filters and nothing else, its target is the selected route's function, and the no-filter shortcut is taken only when all three lists are empty; error and plain-handler chains hold exactly the container filters around a target that runs no service or route code; " +
 			"C06.b the chain step performs exactly one dynamic call per invocation: the filter at the old index after advancing the index, or the target when the filters are exhausted, with the method's own arguments; C06.c every chain on the request path is a function-local object processed exactly once with the pair wrapped on that path; " +
-			"C06.d the http-middleware adapter rebinds request and response before it continues the chain, exactly once; C06.e the request/response pair handed to the chain or the route function is the one pair built for this request.",
+			"C06.d the http-middleware adapter rebinds request and response before it continues the chain, exactly once; C06.f every path of the routing-failure branch processes one chain; C06.e the request/response pair handed to the chain or the route function is the one pair built for this request.",
 		NotDecided: "what user filters do with the chain pointer they receive (calling ProcessFilter twice re-enters later filters by design of the API).",
 		Rules: []Rule{
 			{ID: "C06.a", Template: "T-PROV", Required: true,
@@ -28,6 +28,9 @@ func init() {
 			{ID: "C06.d", Template: "T-ORDER", Required: true,
 				Doc: "HttpMiddlewareHandlerToFilter: the inner handler stores its own *http.Request and ResponseWriter into the captured Request/Response before chain.ProcessFilter(req, resp), which it calls exactly once; the outer filter invokes the wrapped middleware exactly once with the current writer and request.",
 				Run: ruleC06d},
+			{ID: "C06.f", Template: "T-ONCE", Required: true,
+				Doc: "Routing failures: on every path from the branch taken when SelectRoute returned an error to a return, exactly one chain is processed (C06.a decides that this chain holds exactly the container filters). An early return for some kinds of error (a custom router's plain error) answers without the container filters.",
+				Run: ruleC06f},
 		},
 	})
 }
@@ -660,6 +663,18 @@ func ruleC06d(c *Ctx) {
 			argsOK = p.sameVar(cc.Args[1], stReq.Addr.(*ssa.FieldAddr).X) && p.sameVar(cc.Args[2], stResp.Addr.(*ssa.FieldAddr).X)
 		}
 		c.check(argsOK, name, "chain continues with the rebound pair", p.ipos(call), "ProcessFilter(req, resp) on the objects just rebound", "ProcessFilter receives a different pair than the one rebound")
+		// the chain, request and response the handler continues with belong to the current activation of the filter
+		perActivation, whose := true, ""
+		for k, a := range cc.Args {
+			for _, root := range p.loadOfCell(strip(a)) {
+				if requestShape(root.Parent().Signature) != "filter-function" {
+					perActivation = false
+					whose = []string{"chain", "request", "response"}[k%3] + " variable " + root.Comment + " of " + p.fname(root.Parent())
+				}
+			}
+		}
+		c.check(perActivation, name, "adapter state belongs to the current filter activation", p.ipos(call), "the captured chain, request and response are the filter function's own parameters",
+			"the handler continues with the "+whose+", which every activation of the filter shares: concurrent (or nested) requests through the same adapter continue each other's chain")
 	}
 	// outer filters: filter-shaped functions that start a wrapped http.Handler
 	for _, outer := range p.SrcFunc {
@@ -712,5 +727,80 @@ func checkPairPassedOn(c *Ctx, fn *ssa.Function, i ssa.Instruction) {
 		}
 		c.check(okParam, name, "continues the chain with the "+what+" it received", p.ipos(i), "argument is the filter's own *"+what+" parameter",
 			"the chain continues with a different *"+what+" object (a copy or a new wrapper): what later filters and the handler record on it (status, length, attributes) is invisible to the filters that ran before")
+	}
+}
+
+// ---------------------------------------------------------------------------
+// C06.f: a request that fails routing still passes the container filters: from the branch taken when the selector
+// returned an error, every path to a return runs a chain exactly once (C06.a decides that such a chain holds
+// exactly the container filters).
+
+func chainRunners(p *Program) map[*ssa.Function]bool {
+	// module functions that process a chain exactly once on every path (helpers a dispatcher may delegate to)
+	out := map[*ssa.Function]bool{}
+	for _, fn := range p.SrcFunc {
+		if fn.Parent() != nil || fn.Blocks == nil || (fn.Name() == "ProcessFilter" && recvTypeName(fn) == "FilterChain") {
+			continue
+		}
+		sites := map[ssa.Instruction]bool{}
+		eachInstr(fn, func(i ssa.Instruction) {
+			if isProcessFilterCall(i) {
+				sites[i] = true
+			}
+		})
+		if len(sites) == 0 {
+			continue
+		}
+		if min, max, ok := countOnPaths(fn, nil, sites); ok && min == 1 && max == 1 {
+			out[fn] = true
+		}
+	}
+	return out
+}
+
+func ruleC06f(c *Ctx) {
+	p := c.P
+	ds, err := findDispatchers(p)
+	if err != nil || len(ds) == 0 {
+		c.undecided("-", "dispatching function", "-", "no function invoking RouteSelector.SelectRoute found")
+		return
+	}
+	runners := chainRunners(p)
+	n := 0
+	for _, d := range ds {
+		fn := d.Fn
+		name := p.fname(fn)
+		sites := map[ssa.Instruction]int{}
+		eachInstr(fn, func(i ssa.Instruction) {
+			if isProcessFilterCall(i) {
+				sites[i] = 1
+				return
+			}
+			if cc := callCommon(i); cc != nil && cc.StaticCallee() != nil && runners[cc.StaticCallee()] {
+				sites[i] = 1
+			}
+		})
+		for _, b := range fn.Blocks {
+			iff, ok := b.Instrs[len(b.Instrs)-1].(*ssa.If)
+			if !ok {
+				continue
+			}
+			bo, ok := iff.Cond.(*ssa.BinOp)
+			if !ok || (bo.Op != token.NEQ && bo.Op != token.EQL) || !isNilConst(bo.Y) || !p.isVar(bo.X, d.Err) {
+				continue
+			}
+			errSucc := b.Succs[0]
+			if bo.Op == token.EQL {
+				errSucc = b.Succs[1]
+			}
+			n++
+			min, max, ok2 := countWeighted(fn, nil, errSucc, sites, nil)
+			c.check(ok2 && min == 1 && max == 1, name, "a routing failure passes the container filters exactly once", p.ipos(iff),
+				"every path from the error branch to a return processes one chain (min = max = 1)",
+				"chains processed on the paths from the routing-error branch to a return: min="+itoa(min)+" max="+maxStr(max)+": some routing failure is answered without the container filters (or runs them twice)")
+		}
+	}
+	if n == 0 {
+		c.undecided("-", "routing-error branch", "-", "no test of the selector's error result found in the dispatching function")
 	}
 }
